@@ -138,3 +138,86 @@ fn run_inner(exe: &Path, base: &Path, pre: &[&str], pos: &[&str], env: &[(&str, 
     }
     out
 }
+
+
+/// The same run with standard streams that cannot be written to: `kind` 1 stdout on a full
+/// device, 2 stderr on a full device, 3 stdout a pipe whose reader has gone, 4 both on a full
+/// device.  Only the exit status and the files can be observed.
+pub fn run_stdio(exe: &Path, tag: &str, pre: &[&str], pos: &[&str], env: &[(&str, String)], timeout_s: u64, kind: u8) -> Out {
+    let dir = scratch_dir();
+    let base = dir.join(format!("{}-stdio{}-{}", tag, kind, std::process::id()));
+    let _ = std::fs::remove_file(base.with_extension("json"));
+    let _ = std::fs::remove_file(base.with_extension("svg"));
+    let full = || std::fs::OpenOptions::new().write(true).open("/dev/full").map(Stdio::from).unwrap_or_else(|_| Stdio::null());
+    let gone = || -> Stdio {
+        // the write end of a pipe whose only reader has exited
+        match Command::new("true").stdin(Stdio::piped()).spawn() {
+            Ok(mut c) => {
+                let w = c.stdin.take();
+                let _ = c.wait();
+                w.map(Stdio::from).unwrap_or_else(Stdio::null)
+            }
+            Err(_) => Stdio::null(),
+        }
+    };
+    let mut cmd = Command::new(exe);
+    cmd.arg("--outfile").arg(&base);
+    for a in pre.iter().chain(pos.iter()) {
+        cmd.arg(a);
+    }
+    cmd.env_remove("RUST_LOG").env_remove("PACKING_VERIF_LOG");
+    for (k, v) in env {
+        cmd.env(k, v);
+    }
+    cmd.stdin(Stdio::null());
+    match kind {
+        1 => {
+            cmd.stdout(full()).stderr(Stdio::piped());
+        }
+        2 => {
+            cmd.stdout(Stdio::null()).stderr(full());
+        }
+        3 => {
+            cmd.stdout(gone()).stderr(Stdio::piped());
+        }
+        _ => {
+            cmd.stdout(full()).stderr(full());
+        }
+    }
+    let mut out = Out { argv: std::iter::once(format!("--outfile <f> [stdio kind {}]", kind)).chain(pre.iter().map(|s| s.to_string())).chain(pos.iter().map(|s| s.to_string())).collect(), ..Default::default() };
+    let t0 = Instant::now();
+    let child = match cmd.spawn() {
+        Ok(c) => c,
+        Err(e) => {
+            out.stderr = format!("spawn failed: {}", e);
+            return out;
+        }
+    };
+    // (short runs: wait_with_output drains stderr if it is piped)
+    let (tx, rx) = std::sync::mpsc::channel();
+    let pid = child.id();
+    std::thread::spawn(move || {
+        let _ = tx.send(child.wait_with_output());
+    });
+    match rx.recv_timeout(Duration::from_secs(timeout_s)) {
+        Ok(Ok(o)) => {
+            out.status = o.status.code();
+            #[cfg(unix)]
+            {
+                use std::os::unix::process::ExitStatusExt;
+                out.signal = o.status.signal().is_some();
+            }
+            out.stderr = String::from_utf8_lossy(&o.stderr).into_owned();
+        }
+        _ => {
+            let _ = Command::new("kill").arg("-9").arg(pid.to_string()).status();
+            out.timed_out = true;
+        }
+    }
+    out.wall_s = t0.elapsed().as_secs_f64();
+    out.json = std::fs::read_to_string(base.with_extension("json")).ok();
+    out.svg = std::fs::read_to_string(base.with_extension("svg")).ok();
+    let _ = std::fs::remove_file(base.with_extension("json"));
+    let _ = std::fs::remove_file(base.with_extension("svg"));
+    out
+}
